@@ -1,15 +1,13 @@
 """C07 Shipped lattice morphisms distribute over merge (engine E1)."""
 from tools import lat, morph, vlib
 
-KEY = "keyed/inner-not-bottom-preserving"
 
 
 class C07(vlib.Spec):
     model_vo = ["theories/Lattice/Morph.vo", "theories/Lattice/MorphGHT.vo"]
     props_vo = "theories/Props/C07.vo"
-    theorems = ["C07_distributes", "C07_respects_eq", "C07_keyed_parametric", "C07_keyed_towers",
-                "C07_cartesian_is_product", "C07_keyed_pair_refuted", "C07_keyed_fixed_parametric",
-                "C07_fixed_all_shapes", "C07_ght_cartesian", "C07_ght_valtype_product",
+    theorems = ["C07_distributes", "C07_respects_eq", "C07_keyed_parametric", "C07_all_shapes",
+                "C07_cartesian_is_product", "C07_ght_cartesian", "C07_ght_valtype_product",
                 "C07_ght_deep_join_rows_partial", "C07_ght_inputs_wf", "C07_holds_b_sound"]
     crate, group, binary = "h_morph", "light", "h_morph"
     imports = "From HV Require Import Lattice.MorphGHT.\nFrom HV Require Import Lattice.Univ Lattice.Morph."
@@ -23,13 +21,14 @@ class C07(vlib.Spec):
                    "GHT bimorphisms on e2-coll's trie model (Coll/ModelGHT.v): GhtCartesianProduct and GhtValTypeProduct "
                    "proved with the crate's ==; DeepJoin/GhtNodeKeyed towers proved up to the set of rows only "
                    "(C07_ght_deep_join_rows_partial) -- their == is checked on the implementation, not proved"]
-    explanation = ("CartesianProductBimorphism, KeyedBimorphism (parametric in the wrapped bimorphism; every "
-                   "Keyed^n<Cartesian> tower by induction on the shape) and PairBimorphism are proved to distribute "
+    explanation = ("CartesianProductBimorphism, PairBimorphism and KeyedBimorphism (parametric in any wrapped bimorphism; "
+                   "every shape by induction) are proved to distribute "
                    "over merge in each argument on the model; GHT cartesian / value-type product likewise; the GHT deep join "
                    "(node-keyed towers) is proved to distribute up to the set of rows only (_rows_partial: the == of "
                    "join outputs with empty children is finer than row equality and is only checked on the "
-                   "implementation); KeyedBimorphism<_, PairBimorphism> is refuted (finding); the proposed repair "
-                   "keyed_fixed is proved a bimorphism for any wrapped bimorphism.")
+                   "implementation); KeyedBimorphism is proved a bimorphism for ANY wrapped bimorphism (every nesting "
+                   "over Cartesian / Pair); the former finding on KeyedBimorphism<_, PairBimorphism> is fixed in "
+                   "/repo (77f6722ffe1) and its witness is a corpus case.")
     rule = ("one case = (bimorphism instance, a, da, b, db) for 22 registered instances of 6 shapes (5 of them with the deltas in singleton / array / vec / option backed representations); da/db random "
             "perturbations of a/b, sprinkled with bottom-valued map entries; plus GHT cases: 6 GhtType! shapes x "
             "{deep join, cartesian product} on row sets over small key domains; non-trivial = a delta changes the output")
@@ -61,24 +60,6 @@ class C07(vlib.Spec):
         if "ab" not in res:
             return True
         return res["l"] != res["ab"] or res["r"] != res["ab"]
-
-    def finding_key(self, case, res):
-        if "ab" not in res or case.get("k") == "ght":
-            return None
-        sh, ta, tb, tda, tdb = morph.parse_name4(case["sh"])
-        if not morph.keyed_over_pair(sh):
-            return None
-        # only the class the refutation describes: on every failing side, the delta carries a
-        # bottom-valued entry (skipped by MapUnion::merge, but its image under Pair is not bottom)
-        bad_l = not res["eq_l"]
-        bad_r = not res["eq_r"]
-        if not (bad_l or bad_r):
-            return None
-        if bad_l and not morph.has_bot_entry(tda, case["da"]):
-            return None
-        if bad_r and not morph.has_bot_entry(tdb, case["db"]):
-            return None
-        return KEY
 
     def distribution(self, cases, results):
         return morph.distribution(cases, results)
